@@ -6,6 +6,7 @@ import RagcModel.Props.C09
 import RagcModel.Props.C10
 import RagcModel.Props.C12
 import RagcModel.Lemmas.WriterBases
+import RagcModel.Lemmas.WriterSamples
 /-!
 # C01 — lossless round trip: create then extract returns every sample exactly
 
@@ -46,7 +47,9 @@ decisions, all inputs over the literal codes, every `k ≥ 1`:
 * `Props.C02.container_returns_every_part`, `group_roundtrip`, `read_write_segments`;
 * `read_write_bases`: for well-formed decisions, from the group table the decoder builds
   (`group_roundtrip`), `decodeContig` on the descriptors the writer registers returns every
-  contig's bases and reports no violation (`addressing`, `raw-length`, `segment-shorter-than-k`).
+  contig's bases and reports no violation (`addressing`, `raw-length`, `segment-shorter-than-k`);
+* `read_write_samples`: the decoder's last stage returns all samples with the input's catalogue
+  and bases and no violation.
 
 NOT proved — the target `read_write : DecisionsOK … → writeArchive … = some bs → decodeArchive bs zd
 = ok d ∧ d.catalogue = catalogueOf inp ∧ d.bases = basesOf inp ∧ d.violations = []`. What is
@@ -403,6 +406,34 @@ example : Ragc.Writer.DecisionsOK exCfg exInp exDec ∧ Ragc.Writer.codesOK exIn
     Ragc.Writer.catalogueOf exInp = [([83], [[99], [100]])] := by
   refine ⟨by decide, by decide, by decide, by decide⟩
 
+open Ragc.Writer Ragc.WriterLemmas Ragc.Agc3 in
+/-- **All samples come back: catalogue and bases.** Same hypotheses as `read_write_bases`. The
+decoder's last stage `decodeSamples`, run on the sample names and on the per-sample tables
+`contig name ↦ descriptors` that the writer's catalogue holds (`Writer.catalogue`, C03 gives these
+tables back from the collection streams), returns the SAME violation accumulator and samples whose
+catalogue is `catalogueOf inp` and whose bases are `basesOf inp` — exactly the last three
+conjuncts of the target `read_write`, from the decoded catalogue and group table on. -/
+theorem read_write_samples (cfg : Cfg) (inp : List Sample) (dec : Decisions) (zc : Nat → List Nat → List Nat)
+    (outs : List GroupOut) (hok : DecisionsOK cfg inp dec) (hcodes : codesOK inp)
+    (hw : writeGroups cfg zc (storedAll cfg.k inp dec) dec.groups = some outs)
+    (gds : Array GroupD)
+    (hgds : ∀ G ∈ dec.groups, ∀ datas P, G.members.mapM (lookup3 (storedAll cfg.k inp dec)) = some datas →
+      planGroup cfg.minMatch G datas = some P → ∃ GD, Ragc.Agc3.findGroup gds G.id = some GD ∧ GDMatches GD P)
+    (a : Acc) :
+    ∃ samples : List DSample,
+      decodeSamples cfg.k cfg.minMatch gds (inp.map (·.name))
+        (List.zipWith (fun s dcs => tableOf outs s.contigs dcs) inp dec.pieces).toArray a = (a, samples.toArray) ∧
+      samples.map (fun s => (s.name, s.contigs.map (·.name))) = catalogueOf inp ∧
+      samples.map (fun s => s.contigs.map (·.bases)) = basesOf inp := by
+  have hd := decOK_of cfg inp dec hok
+  exact ⟨_, decodeSamples_ok cfg inp dec zc outs hd hcodes hw gds hgds a,
+    (expected_samples cfg inp dec outs hd).1, (expected_samples cfg inp dec outs hd).2⟩
+
+example : Ragc.Writer.basesOf exInp = [[[0, 1, 2, 3, 0, 1, 2, 3, 0, 1], [2, 4, 1]]] ∧
+    Ragc.WriterLemmas.tableOf [⟨16, none, [], [0]⟩, ⟨0, none, [], [1, 2]⟩] (exInp.map (·.contigs)).flatten
+      (exDec.pieces.flatten) =
+      [([99], [⟨16, 0, false, 6⟩, ⟨0, 1, true, 7⟩]), ([100], [⟨0, 2, false, 3⟩])] := by decide
+
 /-! ### `read_write` — status
 
 Target (DESIGN §5 C01.5), for `bs` = the bytes of the reference writer:
@@ -419,7 +450,9 @@ Proved, with these exact names (all decisions, all inputs, any `zc`/`zd` with th
 `Props.C02.container_returns_every_part` (bytes → every part of every stream),
 `Props.C02.group_roundtrip` (parts of a group → decoded group, no violation),
 `Props.C02.read_write_segments` (descriptor → member data),
-`read_write_bases` (group table → bases of every contig, no violation), `pieces_tile`;
+`read_write_bases` (group table → bases of every contig, no violation), `read_write_samples`
+(catalogue tables + group table → all samples: catalogue = `catalogueOf inp`, bases = `basesOf inp`,
+no violation), `pieces_tile`;
 and the catalogue codecs in C03 (`sample_names_roundtrip`, `names_roundtrip`, `details_roundtrip`).
 
 Missing for `read_write` (pure composition, no new idea; `decodeArchive` is already split into
@@ -436,7 +469,8 @@ the stages named below in `Model/Agc3.lean`):
    `addStream` over distinct group ids gives one `Group` per group with its two part lists, then
    `group_roundtrip` folded over them; `findGroup` in the result; `checkUnused` (every group has a
    member whose descriptor names it);
-5. `decodeSamples`: `read_write_bases` folded over contigs and samples.
+5. (done: `read_write_samples`) `decodeSamples` = `read_write_bases` folded over contigs and samples;
+   what remains is to feed it the tables of step 3 and the group table of step 4.
 Until then these steps are covered by the correspondence run only: the independent decoder decodes
 every real archive with `violations = []` and equal to the input, and the reference writer
 reproduces every real archive byte for byte (C02 harness). -/
